@@ -24,6 +24,7 @@ from hypothesis import strategies as st
 
 from ..harness import Crash, Sub, Violation
 from ..oracles import graphs_rs as G
+from .. import budget
 from ..shadow import HarnessError
 
 PROPERTY = "C12"
@@ -71,6 +72,19 @@ WHERE = {  # function -> (module, extension entry point the adapter must reach)
     "topological_sort_edges": ("solvor.scc", "topological_sort"),
 }
 INF = float("inf")
+# JUMP|BRANCH events allowed per call (vf/budget.py).  >= 100 x the largest count seen on /repo over the quick and the thorough
+# tier (evidence: sizes "steps-<fn>"), rounded up; small enough that a runaway list-building loop stops below ~20 MB.
+STEP_LIMIT = {
+    "floyd_warshall": 1_000_000,
+    "bellman_ford": 3_000_000,
+    "dijkstra_edges": 3_000_000,
+    "bfs_edges": 3_000_000,
+    "dfs_edges": 3_000_000,
+    "kruskal": 3_000_000,
+    "pagerank_edges": 100_000_000,
+    "strongly_connected_components_edges": 3_000_000,
+    "topological_sort_edges": 3_000_000,
+}
 
 _ready = False
 _kernel_calls: Counter = Counter()
@@ -113,6 +127,12 @@ def _require_rust():
 
         spy._c12_spy = True
         setattr(ext, kernel, spy)  # adapters look the entry point up on the module at call time
+    # deterministic step budget on the Python side of every call (adapters + pure-Python algorithms; floyd_warshall is
+    # left out: three plain nested loops, nothing that can fail to terminate, and the O(n^3) body would only pay the overhead)
+    import solvor.bellman_ford, solvor.bfs, solvor.dijkstra, solvor.mst, solvor.pagerank, solvor.scc, solvor.utils  # noqa: E401
+    import solvor.rust.adapters
+
+    budget.instrument(solvor.rust.adapters, solvor.bellman_ford, solvor.bfs, solvor.dijkstra, solvor.mst, solvor.pagerank, solvor.scc, solvor.utils)
     _ready = True
 
 
@@ -123,6 +143,7 @@ def _call4(ctx, fname, make_args, kwargs):
     fn = getattr(importlib.import_module(modname), fname)
     out = {}
     mutated = {}
+    over = []
     for b in BACKENDS:
         kw = dict(kwargs)
         if b != "default":
@@ -131,13 +152,19 @@ def _call4(ctx, fname, make_args, kwargs):
         args = make_args()
         pristine = copy.deepcopy(args)
         try:
-            out[b] = ctx.call(fn, *args, **kw)
+            with budget.steps(STEP_LIMIT[fname]) as meter:
+                out[b] = ctx.call(fn, *args, **kw)
         except Crash:
             raise
+        except budget.StepBudgetExceeded:
+            # e.g. an adapter that walks a cyclic predecessor array for ever (and would eat the memory while doing so)
+            over.append(b)
+            continue
         except BaseException as e:  # a Rust panic surfaces as pyo3's PanicException (a BaseException)
             if type(e).__name__ == "PanicException":
                 raise Violation(f"{fname}:rust-panic", {"backend": b, "message": str(e)[:300]})
             raise
+        ctx.size(f"steps-{fname}", meter.count)
         if args != pristine:
             # a back-end that edits the caller's arguments makes itself visible in later calls on the same objects
             mutated[b] = True
@@ -148,6 +175,10 @@ def _call4(ctx, fname, make_args, kwargs):
         elif not used:
             raise HarnessError(f"C12: {fname}(backend={b!r}) returned without calling the extension; python would be compared with python")
         ctx.count("extension-calls", used)
+    if over:
+        if len(over) == len(BACKENDS):
+            raise budget.StepBudgetExceeded(fname)  # nobody returns: inconclusive, not a statement about equivalence
+        raise Violation(f"{fname}:some-backends-do-not-return-within-the-step-budget", {"not_returning": over, "returned": _showall(out), "step_limit": STEP_LIMIT[fname]})
     if mutated and len(mutated) != len(BACKENDS):
         raise Violation(f"{fname}:arguments-mutated-by-some-backends-only", {"mutating": sorted(mutated), "all": list(BACKENDS)})
     return out
@@ -206,7 +237,7 @@ def _pair_facts(ctx, n, pairs, weights=None):
     loop = any(u == v for u, v in cnt)
     touched = {x for p in pairs for x in p}
     ctx.label(dup and "duplicate-pair", anti and "anti-parallel-pair", loop and "self-loop", len(touched) < n and "isolated-node",
-              not pairs and "no-edges", n == 1 and "n=1")
+              not pairs and "no-edges", n == 1 and "n=1", n >= 33 and "n>=33", n > 64 and "n>64")
     if weights is not None:
         byp = {}
         for p, w in zip(pairs, weights):
@@ -271,31 +302,92 @@ def _shuffled(draw, items):
     return [list(x) for x in draw(st.permutations(items))] if 1 < len(items) <= 40 else items
 
 
-def _draw_graph(draw, n, wstrat=None):
-    """(family, edges, root).  uniform: drawn pairs.  backbone: an out-tree over a drawn permutation (every node hangs
+TINY = 2.0**-40  # ~9.1e-13; k*TINY next to halves and small integers keeps every float sum in both back-ends exact
+
+
+def _draw_large(draw, tier, wstrat=None, nmax=None, forward_only=False):
+    """(n, edges, root): 33..80 nodes (thorough: ..140), sparse.  Over a drawn permutation either up to four long
+    directed paths or an out-tree in which every node hangs under one of its four predecessors, plus up to 6 noise
+    edges (forward_only: oriented along the permutation, so the graph stays acyclic).  Sizes beyond one machine word of
+    a bit set / beyond u8 counters etc. are only reached here; the uniform families stop at 8 (12) nodes."""
+    n = draw(st.integers(33, nmax or (140 if tier == "thorough" else 80)))
+    perm = draw(st.permutations(range(n)))
+    if draw(st.booleans()):
+        starts = {0, *draw(st.lists(st.integers(1, n - 1), max_size=3))}
+        idx = [(i - 1, i) for i in range(1, n) if i not in starts]
+    else:
+        offs = draw(st.lists(st.integers(0, 3), min_size=n - 1, max_size=n - 1))
+        idx = [(max(i - 1 - offs[i - 1], 0), i) for i in range(1, n)]
+    pos = st.integers(0, n - 1)
+    for a, b in draw(st.lists(st.tuples(pos, pos), max_size=6)):
+        if not forward_only:
+            idx.append((a, b))
+        elif a != b:
+            idx.append((min(a, b), max(a, b)))
+    if draw(st.booleans()):
+        idx.reverse()
+    edges = [[perm[a], perm[b]] for a, b in idx]
+    if wstrat is not None:
+        ws = draw(st.lists(wstrat, min_size=len(edges), max_size=len(edges)))
+        edges = [e + [w] for e, w in zip(edges, ws)]
+    return n, edges, perm[0]
+
+
+def _draw_graph(draw, tier, wstrat=None, large_one_in=12, large_nmax=None):
+    """(family, n, edges, root).  uniform: drawn pairs.  backbone: an out-tree over a drawn permutation (every node hangs
     under its predecessor in the permutation or under an earlier one, so multi-hop routes from the root exist by
-    construction) plus drawn extra pairs, shuffled; root = first node of the permutation."""
-    family = draw(st.sampled_from(["uniform", "backbone"]))
+    construction) plus drawn extra pairs, shuffled; root = first node of the permutation.  large: see _draw_large
+    (one case in `large_one_in`)."""
+    half = (large_one_in - 1) // 2
+    family = draw(st.sampled_from(["uniform"] * (large_one_in - 1 - half) + ["backbone"] * half + ["large"]))
+    if family == "large":
+        n, edges, root = _draw_large(draw, tier, wstrat, large_nmax)
+        return family, n, edges, root
+    n = _draw_n(draw, tier)
     if family == "uniform" or n < 3:
-        return "uniform", _draw_pairs(draw, n, wstrat=wstrat), None
+        return "uniform", n, _draw_pairs(draw, n, wstrat=wstrat), None
     perm = draw(st.permutations(range(n)))
     edges = []
     for i in range(1, n):
         j = i - 1 - (draw(st.integers(0, i - 1)) if draw(st.booleans()) else 0)
         edges.append([perm[j], perm[i]] + ([draw(wstrat)] if wstrat is not None else []))
     edges += _draw_pairs(draw, n, mmax=n + 2, wstrat=wstrat)
-    return family, _shuffled(draw, edges), perm[0]
+    return family, n, _shuffled(draw, edges), perm[0]
 
 
-def _draw_weighted(draw, n, mode):
-    family, edges, root = _draw_graph(draw, n, st.sampled_from(W_POS + W_POS + W_NEG if mode == "free" else W_POS))
+def _draw_hairline(draw, tier):
+    """(n, edges, root): a planted cycle through 1..4 nodes whose total weight is -k*2^-40, +k*2^-40 or 0 (k <= 500, i.e.
+    |total| between 9e-13 and 4.6e-10) although its edges are ordinary halves and small integers of both signs, plus
+    non-negative noise edges.  Whether a negative cycle exists is decided by amounts far below any 'epsilon'; all
+    weights are dyadic, so the exact reference and the float arithmetic of both back-ends agree on every sum."""
+    n = _draw_n(draw, tier)
+    length = draw(st.integers(1, min(n, 4)))
+    cyc = list(draw(st.permutations(range(n))))[:length]
+    ws = [draw(st.sampled_from(W_POS + W_NEG)) for _ in range(length - 1)]
+    total = draw(st.sampled_from([-1, -1, 1, 0])) * draw(st.integers(1, 500)) * TINY
+    ws.append(total - sum(ws))
+    edges = [[cyc[i], cyc[(i + 1) % length], w] for i, w in enumerate(ws)]
+    edges += _draw_pairs(draw, n, mmax=n, wstrat=st.sampled_from(W_POS))
+    return n, _shuffled(draw, edges), cyc[0]
+
+
+def _draw_weighted(draw, tier, mode, large_one_in=24, large_nmax=None):
+    """(family, mode, n, edges, root)"""
+    if mode == "hairline":
+        n, edges, root = _draw_hairline(draw, tier)
+        return "hairline", mode, n, edges, root
+    wst = st.sampled_from(W_POS + W_POS + W_NEG if mode == "free" else W_POS)
+    family, n, edges, root = _draw_graph(draw, tier, wst, large_one_in, large_nmax)
     if mode == "fewneg" and edges:
         for i in draw(st.lists(st.integers(0, len(edges) - 1), min_size=1, max_size=2)):
             edges[i][2] = draw(st.sampled_from(W_NEG))
     if mode == "potential":
-        pot = draw(st.lists(st.integers(0, 3), min_size=n, max_size=n))
-        edges = [[u, v, w + pot[u] - pot[v]] for u, v, w in edges]  # ints stay ints, halves stay exact floats
-    return family, edges, root
+        if family == "large":
+            mode = "nonneg"  # no potentials on the large graphs (one draw per node for nothing)
+        else:
+            pot = draw(st.lists(st.integers(0, 3), min_size=n, max_size=n))
+            edges = [[u, v, w + pot[u] - pot[v]] for u, v, w in edges]  # ints stay ints, halves stay exact floats
+    return family, mode, n, edges, root
 
 
 def _draw_source(draw, n, root):
@@ -335,34 +427,31 @@ def _draw_target(draw, n, source, edges):
 
 @st.composite
 def fw_cases(draw, tier):
-    n = _draw_n(draw, tier)
     directed = draw(st.booleans())
-    mode = draw(st.sampled_from(["nonneg", "nonneg", "potential", "potential", "fewneg", "free"] if directed else ["nonneg", "nonneg", "nonneg", "fewneg"]))
-    family, edges, _ = _draw_weighted(draw, n, mode)
+    mode = draw(st.sampled_from(["nonneg", "nonneg", "potential", "potential", "fewneg", "free", "hairline"] if directed else ["nonneg", "nonneg", "nonneg", "fewneg"]))
+    # large graphs stay <= 40 nodes here: the pure-Python triple loop and the exact all-pairs reference are cubic
+    family, mode, n, edges, _ = _draw_weighted(draw, tier, mode, large_one_in=40, large_nmax=40)
     return {"n": n, "directed": directed, "mode": mode, "family": family, "edges": edges}
 
 
 @st.composite
 def bf_cases(draw, tier):
-    n = _draw_n(draw, tier)
-    mode = draw(st.sampled_from(["nonneg", "potential", "potential", "fewneg", "free"]))
-    family, edges, root = _draw_weighted(draw, n, mode)
+    mode = draw(st.sampled_from(["nonneg", "potential", "potential", "fewneg", "free", "hairline", "hairline"]))
+    family, mode, n, edges, root = _draw_weighted(draw, tier, mode)
     s = _draw_source(draw, n, root)
     return {"n": n, "mode": mode, "family": family, "edges": edges, "source": s, "target": _draw_target(draw, n, s, edges)}
 
 
 @st.composite
 def dj_cases(draw, tier):
-    n = _draw_n(draw, tier)
-    family, edges, root = _draw_weighted(draw, n, "nonneg")
+    family, _, n, edges, root = _draw_weighted(draw, tier, "nonneg")
     s = _draw_source(draw, n, root)
     return {"n": n, "family": family, "edges": edges, "source": s, "target": _draw_target(draw, n, s, edges)}
 
 
 @st.composite
 def trav_cases(draw, tier):
-    n = _draw_n(draw, tier)
-    family, edges, root = _draw_graph(draw, n)
+    family, n, edges, root = _draw_graph(draw, tier)
     s = _draw_source(draw, n, root)
     return {"n": n, "family": family, "edges": edges, "source": s, "target": _draw_target(draw, n, s, edges)}
 
@@ -404,10 +493,13 @@ def _binomial_case(draw):
 
 @st.composite
 def mst_cases(draw, tier):
-    n = _draw_n(draw, tier)
-    family = draw(st.sampled_from(["sparse", "tree+extra", "tree+extra", "ties", "binomial", "binomial"]))
+    family = draw(st.sampled_from(["sparse", "tree+extra", "tree+extra", "ties", "binomial", "binomial"] * 4 + ["large"]))
     if family == "binomial":
         return _binomial_case(draw)
+    if family == "large":
+        n, edges, _ = _draw_large(draw, tier, st.sampled_from(W_POS + W_NEG))
+        return {"n": n, "family": family, "edges": edges, "allow_forest": draw(st.booleans()), "explicit": draw(st.booleans())}
+    n = _draw_n(draw, tier)
     if family == "tree+extra":
         perm = draw(st.permutations(range(n)))
         pairs = []
@@ -426,10 +518,16 @@ def mst_cases(draw, tier):
 
 @st.composite
 def pr_cases(draw, tier):
-    n = _draw_n(draw, tier)
-    edges = _draw_pairs(draw, n)
+    if draw(st.integers(0, 24)) == 24:
+        n, edges, _ = _draw_large(draw, tier, nmax=64)
+        family = "large"
+    else:
+        n = _draw_n(draw, tier)
+        edges = _draw_pairs(draw, n)
+        family = "uniform"
     return {
         "n": n,
+        "family": family,
         "edges": edges,
         "damping": draw(st.sampled_from([0.25, 0.5, 0.85, 0.9])),
         "tol": draw(st.sampled_from([1e-3, 1e-6, 1e-8, 1e-10])),
@@ -440,8 +538,11 @@ def pr_cases(draw, tier):
 
 @st.composite
 def scc_cases(draw, tier):
+    family = draw(st.sampled_from(["uniform", "planted"] * 6 + ["large"]))
+    if family == "large":  # long paths / a tree with a few arbitrary extra edges: back edges close long cycles
+        n, pairs, _ = _draw_large(draw, tier)
+        return {"n": n, "family": family, "edges": pairs}
     n = _draw_n(draw, tier)
-    family = draw(st.sampled_from(["uniform", "planted"]))
     if family == "uniform":
         pairs = _draw_pairs(draw, n)
     else:  # blocks of consecutive positions of a permutation, a cycle through each block, forward edges between blocks
@@ -462,8 +563,11 @@ def scc_cases(draw, tier):
 
 @st.composite
 def topo_cases(draw, tier):
+    family = draw(st.sampled_from(["dag", "dag", "dag+1", "uniform"] * 3 + ["large"]))
+    if family == "large":  # acyclic in 3 of 4 cases (noise edges oriented along the permutation), else arbitrary noise edges
+        n, pairs, _ = _draw_large(draw, tier, forward_only=draw(st.integers(0, 3)) > 0)
+        return {"n": n, "family": family, "edges": pairs}
     n = _draw_n(draw, tier)
-    family = draw(st.sampled_from(["dag", "dag", "dag+1", "uniform"]))
     if family == "uniform":
         pairs = _draw_pairs(draw, n, mmax=n)
     else:
@@ -488,7 +592,7 @@ def run_fw(desc, ctx):
     n, directed = desc["n"], desc["directed"]
     edges = [tuple(e) for e in desc["edges"]]
     res = _call4(ctx, fname, lambda: (n, list(edges)), {"directed": directed})
-    A = G.apsp(n, edges, directed)
+    A = G.apsp(n, edges, directed) if n <= 16 else G.apsp_by_source(n, edges, directed)
     dupanti = _pair_facts(ctx, n, [(u, v) for u, v, _ in edges], [w for *_, w in edges])
     ctx.label("directed" if directed else "undirected", f"mode-{desc['mode']}", f"family-{desc.get('family', 'uniform')}", "negative-cycle" if A is None else "no-negative-cycle")
     ctx.nontrivial(dupanti or A is None)
@@ -596,7 +700,7 @@ def run_bf(desc, ctx):
     d = G.sssp(n, edges, s)
     dupanti = _pair_facts(ctx, n, [(u, v) for u, v, _ in edges], [w for *_, w in edges])
     ctx.label(f"mode-{desc['mode']}", "negative-cycle-reachable" if d is None else "no-reachable-negative-cycle")
-    if d is not None and G.apsp(n, edges) is None:
+    if d is not None and n <= 16 and G.apsp(n, edges) is None:
         ctx.label("negative-cycle-unreachable-from-source")
     unreach = _target_labels(ctx, desc, d)
     ctx.nontrivial(dupanti or d is None or unreach)
@@ -775,7 +879,7 @@ def run_pr(desc, ctx):
     res = _call4(ctx, fname, lambda: (n, list(edges)), kw)
     dupanti = _pair_facts(ctx, n, edges)
     outdeg = Counter(u for u, _ in edges)
-    ctx.label(any(outdeg[v] == 0 for v in range(n)) and "dangling-node", f"max_iter={mi}" if mi <= 10 else "max_iter>10", f"damping={d}", f"tol={tol}")
+    ctx.label(f"family-{desc.get('family', 'uniform')}", any(outdeg[v] == 0 for v in range(n)) and "dangling-node", f"max_iter={mi}" if mi <= 10 else "max_iter>10", f"damping={d}", f"tol={tol}")
     ctx.nontrivial(dupanti)
     vec = {}
     for b, r in res.items():
